@@ -17,6 +17,9 @@ mod refmodel;
 use engine::{DbgShare, DriveOpts, Property, Tier};
 use progs::PP;
 
+/// Tier of the current run (a few generators enumerate more in the thorough tier).
+pub static TIER_THOROUGH: std::sync::atomic::AtomicBool = std::sync::atomic::AtomicBool::new(false);
+
 #[global_allocator]
 static GA: galloc::G = galloc::G;
 
@@ -37,6 +40,30 @@ macro_rules! dispatch {
             }
             "C04" => {
                 let $p = PP(props::c04::C04);
+                $body
+            }
+            "C05" => {
+                let $p = PP(props::c05::C05);
+                $body
+            }
+            "C06" => {
+                let $p = PP(props::c06::C06);
+                $body
+            }
+            "C07" => {
+                let $p = PP(props::c07::C07);
+                $body
+            }
+            "C08" => {
+                let $p = PP(props::c08::C08);
+                $body
+            }
+            "C10" => {
+                let $p = PP(props::c10::C10);
+                $body
+            }
+            "C17" => {
+                let $p = PP(props::c17::C17);
                 $body
             }
             other => {
@@ -73,6 +100,7 @@ fn main() {
             exec::install_quiet_panic_hook();
             let id = args[2].as_str();
             let tier = if args[3] == "quick" { Tier::Quick } else { Tier::Thorough };
+            TIER_THOROUGH.store(tier == Tier::Thorough, std::sync::atomic::Ordering::Relaxed);
             let seed: u64 = args[4].parse().expect("seed");
             let shard: usize = args[5].parse().expect("shard");
             let shards: usize = args[6].parse().expect("shards");
@@ -118,6 +146,7 @@ fn main() {
             }
             child::init();
             exec::install_quiet_panic_hook();
+            TIER_THOROUGH.store(tier == Tier::Thorough, std::sync::atomic::Ordering::Relaxed);
             let code = dispatch!(id.as_str(), p, {
                 if let Some(f) = &replay {
                     engine::replay_file(&p, f)
